@@ -360,7 +360,7 @@ func (r *resolver) ResolveConstValue(t *parser.ConstValue) (err error) {
 					for _, v := range enum.Values {
 						if v.Name == ss[1] {
 							ref = append(ref, &parser.ConstValueExtra{
-								IsEnum: true, Index: idx, Name: ss[1], Sel: ss[0],
+								IsEnum: true, Index: idx, Name: ss[1], Sel: enum.Name,
 							})
 						}
 					}
@@ -387,7 +387,7 @@ func (r *resolver) ResolveConstValue(t *parser.ConstValue) (err error) {
 						for _, v := range enum.Values {
 							if v.Name == ss[2] {
 								ref = append(ref, &parser.ConstValueExtra{
-									IsEnum: true, Index: int32(idx), Name: ss[2], Sel: ss[1],
+									IsEnum: true, Index: int32(idx), Name: ss[2], Sel: enum.Name,
 								})
 								r.ast.Includes[idx].Used = &yes
 							}
